@@ -935,6 +935,8 @@ def c16(tier, rep):
     srcs = [x for x in std_sources(tier, 150, 2000) if not (q and "very_long" in x[0])]
     # small documents (every application is tried) with blank lines / comments inside the tables of feature-level and rule-level background steps and of examples
     srcs += [("background-table-small", "Feature: f\n  Background: b\n    Given x\n      | a | b |\n\n      | c | d |\n  Scenario: s\n    Then z\n", "en"),
+             ("background-table-small-dense", "Feature: f\n  Background: b\n    Given x\n      | a | b |\n      | c | d |\n      | e | f |\n  Scenario: s\n    Then z\n", "en"),
+             ("rule-tables-small-dense", "Feature: f\n  Rule: r\n    Background:\n      Given x\n        | a |\n        | b |\n    Scenario Outline: o\n      Given <h>\n        | c |\n        | d |\n      Examples:\n        | h |\n        | 1 |\n", "en"),
              ("examples-table-small", "Feature: f\n  Scenario Outline: o\n    Given <a>\n    Examples:\n      | a |\n\n      | 1 |\n      # c\n      | 2 |\n", "en"),
              ("step-table-small", "Feature: f\n  Rule: r\n    Example: e\n      Given x\n        | a |\n        # c\n        | b |\n\n        | c |\n      Then y\n", "en")]
     pairs = LY.build_pairs([x for x in srcs if not x[0].startswith("count:")], SEED, 2 if q else 4)
